@@ -135,8 +135,7 @@ def _run_unit(name, prop, canary=False, mutate=None, suffix=""):
     fname = f"{name}__{tagp}{'__canary' if canary else ''}{suffix}.rs"
     path = os.path.join(BUILD, fname)
     open(path, "w").write(text)
-    # canary runs only need one failing exit per function
-    r = run_verus(path, multiple_errors=(0 if canary else 30))
+    r = run_verus(path)
     out = {"unit": name, "prop": prop, "canary": canary, "file": path, "cmd": r["cmd"],
            "wall_s": round(r["wall"], 2), "failures": [], "undecided": [], "verified": 0, "errors": 0,
            "smt_ms": None, "u": u}
